@@ -29,15 +29,25 @@ class VFS(object):
         self.log = None       # optional list of mutation descriptions
         self.handles = {}     # fileno -> path   (only live within one step / object lifetime)
         self.next_fd = 100
+        self.dead = False
+        self.on_kill = None
 
-    def begin_step(self, kill_at=None, log=False):
+    def begin_step(self, kill_at=None, log=False, on_kill=None):
         self.nwrites = 0
         self.kill_at = kill_at
         self.log = [] if log else None
+        self.dead = False
+        self.on_kill = on_kill
 
     def mutate(self, what):
+        if getattr(self, 'dead', False):
+            # the library swallowed the kill with a bare 'except:'; a dead process does nothing more
+            raise Killed(what)
         if self.kill_at is not None and self.nwrites == self.kill_at:
             self.kill_at = None
+            self.dead = True
+            if self.on_kill is not None:
+                self.on_kill()
             raise Killed(what)
         self.nwrites += 1
         if self.log is not None:
